@@ -367,7 +367,10 @@ class Rat:
             if k == 'fn' and args:
                 na = [x.subs_deep(mapping) for x in args]
                 if any(not (x == y) for x, y in zip(na, args)):
-                    mp[a] = sqrt(na[0]) if n == 'sqrt' and len(na) == 1 else fn(n, *na)
+                    if n == 'sqrt' and len(na) == 1: mp[a] = sqrt(na[0])
+                    elif n == 'sin' and len(na) == 1 and na[0].is_zero(): mp[a] = C(0)
+                    elif n == 'cos' and len(na) == 1 and na[0].is_zero(): mp[a] = C(1)
+                    else: mp[a] = fn(n, *na)
         return self.subs(mp)
 
     def diff(self, atom):
